@@ -37,4 +37,22 @@ TEXT = {
   "note": "kill points sampled; cells compared as strings; execution-time cell unconstrained",
   "technique": "TLA+ model checking (TLC) of the buffered file with crash + trace validation of the on-disk bytes after every registration",
  },
+ "C15": {
+  "level": "TLC enumerates the configuration space itself (every depth-one composition of the step algebra x weights x population sizes) and checks PopSizeInvariant on the length semantics of GESteps, where a parallel step may split k in ANY way (the as-coded compute_ranges variant must fail); the same TLC-enumerated compositions plus sampled deeper nestings are instantiated with the real combinators and probe-wrapped real leaves on list / Population / one-shot-iterator inputs, whole GP runs and every initialiser (injected populations of every length) are recorded, and TLC validates every length event.",
+  "ref": "DESIGN.md section 4 C15",
+  "note": "quick covers a rotating third of the depth-one space per seed; nesting depth <= 3",
+  "technique": "TLA+ model checking (TLC) of the step-length algebra + replay of TLC-enumerated compositions into the real step objects with trace validation",
+ },
+ "C16": {
+  "level": "TLC explores every population of <= 3 (4) individuals over 3 fitness values, both directions, every k and every order among equals, and checks EliteOK (exactly k, sub-bag, nobody excluded strictly better) - a worst-first variant must fail; the real ElitismStep is applied for every k to populations with ties and duplicates in three input forms and GP runs record per-generation fitness with the observed elite slots; TLC validates EliteOK and BestMonotone on every event.",
+  "ref": "DESIGN.md section 4 C16",
+  "note": "monotonicity antecedent = slot reserved and whole generation shown to the elitism step",
+  "technique": "TLA+ model checking (TLC) of top-k selection + trace validation of real elitism applications and GP runs",
+ },
+ "C17": {
+  "level": "TLC explores all draws of tournament and lexicase selection on the model (MC_Select) and checks TournamentOK / LexicaseOK / membership; the real selection steps are driven through EVERY outcome of their random draws for small populations by a scripted source (thousands of outcomes), each outcome recorded as a trace (draws, shuffles, winners) and validated by TLC: winner is a member and a participant, no participant strictly better; lexicase winner is an available candidate, a fresh shuffle preceded it, and it survives the (epsilon) filter for that order.",
+  "ref": "DESIGN.md section 4 C17",
+  "note": "exhaustive over draws only for populations <= 3 (4); larger cases not covered",
+  "technique": "TLA+ model checking (TLC) + exhaustive scripted-randomness enumeration of the real selection steps validated trace by trace",
+ },
 }
